@@ -116,3 +116,150 @@ class ActorCalculateTargetPower:
         invariant_kept="target_implies_bucket(self._set_power_group, component_ids)"
                        " and target_implies_bucket(self._set_op_power_group, component_ids)",
     )
+
+
+# ------------------------------------------------------------------ how requests reach the power distributor
+from pyvc.spec import ExtObj, Variant, Int as _I  # noqa: E402  pylint: disable=wrong-import-position
+
+PDR = "frequenz.sdk.microgrid._power_distributing"
+RequestsSenderT = ExtObj("frequenz.channels.Sender", methods=dict(send=dict(
+    is_async=True, effects={"n_sent": "self.n_sent + 1", "last_power": "args[0].power",
+                            "last_ids": "args[0].component_ids", "last_adjust": "args[0].adjust_power"})),
+    n_sent=_I, last_power=PowerT, last_ids=OpaqueT("component_ids"), last_adjust=Bool)
+ActorWithSender = Obj(
+    f"{A}:PowerManagingActor",
+    _system_bounds=DictOpt({CID: SystemBoundsT}, always=[CID]),
+    _set_power_group=MatryoshkaAbstract,
+    _set_op_power_group=MatryoshkaAbstract,
+    _power_distributing_requests_sender=RequestsSenderT,
+)
+
+
+@contract(f"{A}:PowerManagingActor._send_updated_target_power")
+class SendUpdatedTargetPower:
+    """C11: the only thing ever sent to the power distributor for a component group is the freshly computed sum of
+    the regular and the operating-point target, inside the system bounds, with adjust_power set."""
+    self_shape = ActorWithSender
+    shapes = dict(component_ids=Const(CID), proposal=Opt(ProposalT), must_send=Bool)
+    native_opaque = {"component_ids": CID, "bucket": set}
+    modifies = ["self._set_power_group._component_buckets", "self._set_power_group._target_power",
+                "self._set_op_power_group._component_buckets", "self._set_op_power_group._target_power",
+                "self._power_distributing_requests_sender"]
+    requires = dict(ActorCalculateTargetPower.requires)
+    ensures = dict(
+        at_most_one_request="self._power_distributing_requests_sender.n_sent - old(self._power_distributing_requests_sender.n_sent) in (0, 1)",
+        request_is_sum_of_targets="implies(self._power_distributing_requests_sender.n_sent > old(self._power_distributing_requests_sender.n_sent),"
+                                  " self._power_distributing_requests_sender.last_power == tgt(self._set_power_group, component_ids)"
+                                  " + tgt(self._set_op_power_group, component_ids)"
+                                  " and self._power_distributing_requests_sender.last_adjust == True)",
+        request_within_system_bounds="implies(self._power_distributing_requests_sender.n_sent > old(self._power_distributing_requests_sender.n_sent)"
+                                     " and sysb(self, component_ids).inclusion_bounds is not None,"
+                                     " sysb(self, component_ids).inclusion_bounds.lower <= self._power_distributing_requests_sender.last_power"
+                                     " and self._power_distributing_requests_sender.last_power <= sysb(self, component_ids).inclusion_bounds.upper)",
+        invariant_kept="target_implies_bucket(self._set_power_group, component_ids)"
+                       " and target_implies_bucket(self._set_op_power_group, component_ids)",
+    )
+
+
+# ------------------------------------------------------------------ the actor's event loop
+from pyvc.spec import StrId  # noqa: E402  pylint: disable=wrong-import-position
+try:
+    from frequenz.sdk.microgrid._power_distributing.result import PartialFailure
+except ImportError:
+    pass
+
+PRIO = 7
+SRC_PROPOSAL = 0
+SRC_SUBSCRIPTION = 1
+SRC_RESULT = 2
+SRC_TIMER = 3
+
+
+def _rx(tag):
+    return ExtObj("frequenz.channels.Receiver", tag=Const(tag))
+
+
+def _sel(tag, message):
+    return Rec("ext:frequenz.channels.Selected", origin=Const(tag), message=message)
+
+
+ProposalRunT = Rec(f"{A.rsplit('.', 1)[0]}._base_classes:Proposal", source_id=StrId, preferred_power=Opt(PowerT),
+                   component_ids=Const(CID), priority=_I, creation_time=Real, set_operating_point=Bool)
+ReportRequestT = Rec(f"{A.rsplit('.', 1)[0]}._base_classes:ReportRequest", source_id=StrId, component_ids=Const(CID),
+                     priority=Const(PRIO), set_operating_point=Bool)
+PdRequestT = Rec(f"{PDR}.request:Request", power=PowerT, component_ids=Const(CID), adjust_power=Bool)
+ResultT = Variant(Rec(f"{PDR}.result:Success", request=PdRequestT), Rec(f"{PDR}.result:PartialFailure", request=PdRequestT),
+                  Rec(f"{PDR}.result:Error", request=PdRequestT), Rec(f"{PDR}.result:OutOfBounds", request=PdRequestT))
+EventT = Variant(_sel(SRC_PROPOSAL, ProposalRunT), _sel(SRC_SUBSCRIPTION, ReportRequestT), _sel(SRC_RESULT, ResultT),
+                 _sel(SRC_TIMER, Const(None)))
+GroupT = ExtObj("Matryoshka", methods=dict(drop_old_proposals=dict(effects={"n_drops": "self.n_drops + 1"})), n_drops=_I)
+SubsT = DictOpt({CID: DictOpt({PRIO: OpaqueT("report sender")})})
+RunActorT = Obj(
+    f"{A}:PowerManagingActor",
+    _proposals_receiver=_rx(SRC_PROPOSAL), _bounds_subscription_receiver=_rx(SRC_SUBSCRIPTION),
+    _power_distributing_results_receiver=_rx(SRC_RESULT),
+    _bound_tracker_tasks=DictOpt({CID: OpaqueT("task")}),
+    _set_power_subscriptions=SubsT, _set_op_power_subscriptions=SubsT,
+    _channel_registry=ExtObj("ChannelRegistry", methods=dict(get_or_create=dict(returns="report_channel"))),
+    _set_power_group=GroupT, _set_op_power_group=GroupT,
+    _power_distributing_requests_sender=RequestsSenderT,
+)
+UpdatePathT = ExtObj("update path", methods=dict(note=dict(effects={
+    "n_calls": "self.n_calls + 1", "last_proposal_none": "args[1] is None", "last_must_send": "args[2]"})),
+    n_calls=_I, last_proposal_none=Bool, last_must_send=Bool)
+RUN_LOOP = ("async for selected in select( self._proposals_receiver, self._bounds_subscription_receiver, "
+            "self._power_distributing_results_receiver, drop_old_proposals_timer, )")
+
+
+@contract(f"{A}:PowerManagingActor._run")
+class ActorRun:
+    """C11 (every event class): the actor's loop never sends a request to the power distributor itself - every
+    request goes through _send_updated_target_power, which recomputes the sum of the two targets from the current
+    state.  A proposal recomputes with must_send; a PartialFailure result triggers ONE recomputation (no proposal,
+    must_send) - never a re-send of the failed request - and not again until a Success; the expiry timer drops old
+    proposals of both groups."""
+    self_shape = RunActorT
+    ghost = dict(timer=ExtObj("frequenz.channels.timer.Timer", tag=Const(SRC_TIMER)),
+                 sel=ExtObj("select", stream=EventT), upd=UpdatePathT,
+                 loop=ExtObj("event loop", methods=dict(time=dict(returns="now_s")), ), now_s=Real,
+                 report_channel=ExtObj("Broadcast", methods=dict(new_sender=dict(returns="report_sender"))),
+                 report_sender=OpaqueT("report sender"))
+    externals = {
+        "frequenz.channels.timer.Timer": "timer", "frequenz.channels.timer.SkipMissedAndDrift": "None",
+        "frequenz.channels.select": "sel", "frequenz.channels.selected_from": "args[0].origin == args[1].tag",
+        f"{A}:PowerManagingActor._send_updated_target_power":
+            "upd.note(args[1], args[2], kwargs['must_send'] if 'must_send' in kwargs else (args[3] if len(args) > 3 else False))",
+        f"{A}:PowerManagingActor._send_reports": "None",
+        f"{A}:PowerManagingActor._add_system_bounds_tracker": "None",
+        "asyncio.get_event_loop": "loop",
+        f"{A.rsplit('.', 1)[0]}._base_classes:ReportRequest.get_channel_name": "0",
+    }
+    never_returns = False
+    modifies = ["self", "upd", "sel", "timer", "loop", "report_channel"]
+    requires = dict(distinct_groups="not (self._set_power_group is self._set_op_power_group)")
+    loops = {RUN_LOOP: dict(
+        havoc={"last_result_partial_failure": Bool},
+        havoc_fields={"upd.n_calls": _I, "upd.last_proposal_none": Bool, "upd.last_must_send": Bool,
+                      "upd.calls": OpaqueT("log"), "upd.results": OpaqueT("log"),
+                      "self._set_power_group.n_drops": _I, "self._set_op_power_group.n_drops": _I,
+                      "self._power_distributing_requests_sender.n_sent": _I,
+                      "self._set_power_subscriptions": SubsT, "self._set_op_power_subscriptions": SubsT},
+        invariant=dict(distinct_groups="not (self._set_power_group is self._set_op_power_group)"),
+        ghost_pre=["pre_sent = self._power_distributing_requests_sender.n_sent", "pre_calls = upd.n_calls",
+                   "pre_partial = last_result_partial_failure", "pre_d1 = self._set_power_group.n_drops",
+                   "pre_d2 = self._set_op_power_group.n_drops"],
+        step=dict(
+            requests_only_through_the_update_path="self._power_distributing_requests_sender.n_sent == pre_sent",
+            proposal_recomputes_with_must_send="implies(selected.origin == SRC_PROPOSAL, upd.n_calls == pre_calls + 1"
+                                               " and upd.last_must_send and not upd.last_proposal_none)",
+            partial_failure_recomputes_once="implies(selected.origin == SRC_RESULT and isinstance(selected.message, PartialFailure),"
+                                            " upd.n_calls == pre_calls + (0 if pre_partial else 1)"
+                                            " and implies(not pre_partial, upd.last_must_send and upd.last_proposal_none)"
+                                            " and last_result_partial_failure)",
+            other_results_send_nothing="implies(selected.origin == SRC_RESULT and not isinstance(selected.message, PartialFailure),"
+                                       " upd.n_calls == pre_calls)",
+            subscriptions_send_nothing="implies(selected.origin == SRC_SUBSCRIPTION, upd.n_calls == pre_calls)",
+            timer_expires_both_groups="implies(selected.origin == SRC_TIMER, self._set_power_group.n_drops == pre_d1 + 1"
+                                      " and self._set_op_power_group.n_drops == pre_d2 + 1 and upd.n_calls == pre_calls)",
+        ))}
+    ensures = dict(stream_ended="True")
